@@ -192,8 +192,51 @@ pub fn gen_c13(seed: u64, thorough: bool) -> Plan {
         config,
         knobs: KnobsPlan::simple(),
         flows: vec![],
-        extra: serde_json::json!({ "case": case, "multi_samples": if thorough { 200 } else { 20 }, "sub_seed": g.next() }),
+        // one plan in eight performs its handshakes while a crowd of other tunnels through the same client is open (and stays
+        // open): a request must be answered whatever else the client is carrying (fewer segmentations in those plans)
+        extra: serde_json::json!({ "case": case, "multi_samples": if thorough { 200 } else { 20 }, "sub_seed": g.next(), "crowd": if seed % 8 == 3 { g.range(20, if thorough { 300 } else { 140 }) } else { 0 } }),
     }
+}
+
+const CROWD_IP: [u8; 4] = [127, 0, 77, 1];
+const CROWD_PORT: u16 = 7700;
+
+/// `n` SOCKS5 tunnels through the client to a target that accepts and holds them; returns once all of them are up (or
+/// after 20 simulated seconds) with the number that are. The tunnels stay open until the returned guards are dropped.
+async fn open_crowd(n: usize) -> (usize, Vec<crate::nodes::AbortOnDrop<()>>) {
+    let up = Arc::new(Mutex::new(0usize));
+    let mut guards = Vec::new();
+    guards.push(spawn_scoped(async move {
+        let Ok(l) = octo_squirrel::verif::net::TcpListener::bind(SocketAddr::new(IpAddr::V4(Ipv4Addr::from(CROWD_IP)), CROWD_PORT)).await else { return };
+        let mut held = Vec::new();
+        loop {
+            let Ok((s, _)) = l.accept().await else { return };
+            held.push(s);
+        }
+    }));
+    tokio::task::yield_now().await;
+    for i in 0..n {
+        let up = up.clone();
+        guards.push(spawn_scoped(async move {
+            let f = TcpFlow { hs: LocalHs::Socks5V4, target_name: None, target_ip: CROWD_IP, target_port: CROWD_PORT, start_ms: 0, up: vec![], down: vec![], target_waits_for: 1, ending: Ending::None, target_fault: None };
+            let Ok(mut s) = TcpStream::connect(client_addr()).await else { return };
+            if local_handshake(&mut s, &f).await.is_err() {
+                return;
+            }
+            // the first payload opens the tunnel at the server
+            let _ = s.write_all(format!("crowd-{i}").as_bytes()).await;
+            *up.lock().unwrap() += 1;
+            std::future::pending::<()>().await;
+        }));
+    }
+    for _ in 0..80 {
+        tokio::time::sleep(Duration::from_millis(250)).await;
+        if *up.lock().unwrap() == n {
+            break;
+        }
+    }
+    let k = *up.lock().unwrap();
+    (k, guards)
 }
 
 #[derive(Default, Debug)]
@@ -380,6 +423,11 @@ fn run_hs(plan: &Plan, case: &HsCase, cuts: Vec<usize>) -> HsRun {
             Ok(m) => m,
             Err(e) => return (HsObs::default(), Some(e)),
         };
+        let crowd = plan.extra["crowd"].as_u64().unwrap_or(0) as usize;
+        let (crowd_up, _crowd) = if crowd > 0 { open_crowd(crowd).await } else { (0, Vec::new()) };
+        if crowd_up < crowd {
+            return (HsObs::default(), Some(format!("only {crowd_up} of {crowd} concurrent SOCKS5 tunnels through the client were served")));
+        }
         let obs = Arc::new(Mutex::new(HsObs::default()));
         let t = tokio::spawn(target_task(case.clone(), want_up, obs.clone()));
         tokio::task::yield_now().await;
@@ -409,7 +457,7 @@ fn run_hs(plan: &Plan, case: &HsCase, cuts: Vec<usize>) -> HsRun {
     let (obs, startup_err) = out.result;
     HsRun {
         obs,
-        server_dials: out.world.connects.iter().filter(|c| c.node == rt::NODE_SERVER).map(|c| (c.dst, c.name.clone())).collect(),
+        server_dials: out.world.connects.iter().filter(|c| c.node == rt::NODE_SERVER && c.dst != SocketAddr::new(IpAddr::V4(Ipv4Addr::from(CROWD_IP)), CROWD_PORT)).map(|c| (c.dst, c.name.clone())).collect(),
         dns: out.world.dns_queries.iter().filter(|q| q.node == rt::NODE_SERVER).map(|q| q.name.clone()).collect(),
         panics: out.panics,
         startup_err,
@@ -440,7 +488,8 @@ fn check_hs(plan: &Plan, case: &HsCase, r: &HsRun, what: &str, seg: &str) -> Vec
         v.push(Violation::new("C13", format!("C13/panic/{kind}/{variant}/{seg}/{}", p.frame), format!("{what}: panic in node {}: {} at {}", p.node, p.message, p.location)));
     }
     if let Some(e) = &r.startup_err {
-        v.push(Violation::new("C13", format!("C13/startup/{}", plan.config.label()), e.clone()));
+        let oracle = if e.contains("concurrent SOCKS5 tunnels") { "handshakes-wait-for-other-tunnels" } else { "startup" };
+        v.push(Violation::new("C13", format!("C13/{oracle}/{}", plan.config.label()), e.clone()));
         return v;
     }
     let o = &r.obs;
@@ -534,6 +583,15 @@ pub fn execute_c13(plan: &Plan) -> Outcome {
     let mut cases: Vec<(Vec<usize>, &'static str)> = vec![(vec![], "whole")];
     if let Some(list) = only {
         cases = list.into_iter().map(|c| (c.clone(), classify(&c))).collect();
+    } else if plan.extra["crowd"].as_u64().unwrap_or(0) > 0 {
+        let mut g = Gen::new(plan.extra["sub_seed"].as_u64().unwrap_or(1), 4);
+        for _ in 0..6 {
+            if total > 2 {
+                let k = g.range(1, total as u64 - 1) as usize;
+                cases.push((vec![k], classify(&vec![k])));
+            }
+        }
+        probes.insert("plans_with_a_crowd_of_open_tunnels".to_owned(), 1);
     } else {
         for k in 1..total {
             // a cut at a message boundary is no cut (the application waits for the reply there anyway)
